@@ -256,4 +256,26 @@ FixDiffClasses ==
     IN  \A b \in Builds : (fv[b] # iv[b]) =>
             \/ ClassForkAtZero(iv[b], fv[b])
             \/ ClassLegacyGap(iv[b], fv[b])
+
+\* All of the above in one invariant that computes every verdict vector once per state
+\* (what the driver checks; the name of a failed conjunct is printed)
+Named(name, ok) == ok \/ (PrintT(<<"C19INV", name>>) /\ FALSE)
+AllInv ==
+    LET iv  == IntendedV(FALSE)
+        ivd == IntendedV(TRUE)
+        cv  == CodeV(crows, TRUE)
+        fv  == CodeV(frows, FALSE)
+        mr  == [b \in Builds |-> MustRefuse(by, Len(by), b, forks)]
+    IN  /\ Named("PropertyInv", (IF DevLegacyBackfillOffByOne THEN ivd ELSE iv) = mr)
+        /\ Named("CodeDiffClasses",
+                 \A b \in Builds : (cv[b] # iv[b]) =>
+                    \/ ExplainEdge /\ ClassLegacyEdge(iv[b], cv[b])
+                    \/ ExplainZero /\ ClassForkAtZero(iv[b], cv[b])
+                    \/ ExplainGap  /\ ClassLegacyGap(iv[b], cv[b]))
+        /\ Named("DevModelFaithful", InDomain => cv = ivd)
+        /\ Named("FixFaithful", InDomain => fv = iv)
+        /\ Named("FixDiffClasses",
+                 \A b \in Builds : (fv[b] # iv[b]) =>
+                    \/ ClassForkAtZero(iv[b], fv[b])
+                    \/ ClassLegacyGap(iv[b], fv[b]))
 =============================================================================
